@@ -264,6 +264,10 @@ func (p *parser) readType() (t Type, err error) {
 			if t, err = p.readType(); err != nil {
 				return
 			}
+			if t == nil {
+				err = parseError(p.line, p.col, "a list type must have a member type")
+				return
+			}
 			b, err = p.skipSpace()
 			switch {
 			case err != nil:
